@@ -118,7 +118,10 @@ def run(ctx):
         types += [T.Type(tn), T.Pointer(T.Type(tn)), T.Reference(T.Type(tn, const=True))]
     # types the parser actually produced
     parsed = []
-    for t in pcommon.corpus()[:: 2] + [gen_prog.gen_program(rng, budget=5)[0] for _ in range(ctx.budget(60, 2000))]:
+    decl_family = ["decltype(std::declval<const T&>()) a;", "decltype(new T) b;", "decltype(static_cast<unsigned long>(y))* c;",
+                   "const decltype(sizeof(long double))& d = e;", "void f(decltype(a + b) x, decltype(const_cast<const int*>(p)) y);",
+                   "std::vector<decltype(new int)> g;", "typename T::template U<int>::type h;", "unsigned long long i; long double j; signed char k;"]
+    for t in decl_family + pcommon.corpus()[:: 2] + [gen_prog.gen_program(rng, budget=5)[0] for _ in range(ctx.budget(60, 2000))]:
         try:
             types_in(parse_string(t), parsed)
         except CxxParseError:
